@@ -27,6 +27,11 @@ FAIL_OUT = {"lost", "rejected", "dropsub", "dropshut", "droppeer"}
 SWITCHES = {"DevCapCheckThenAct": "C18-inbound-cap-check-then-act", "DevSweepOnce": "C18-close-blocked-by-unswept-peer"}
 
 
+import threading
+_CFG_LOCK = threading.Lock()
+_CFG_DONE = {}
+
+
 def impl_cfg(wd, name):
     """The cfgs that are bound to the REAL code (edge export for replay, trace validation) carry the model switches
     of the genuine defects: TRUE while the finding is open (the code is as it is), FALSE once it is recorded as
@@ -38,7 +43,12 @@ def impl_cfg(wd, name):
         val = "TRUE" if status.get(fid, "open") == "open" else "FALSE"
         txt = re.sub(r"(%s\s*=\s*)(TRUE|FALSE)" % sw, r"\g<1>" + val, txt)
     out = os.path.join(wd, name)
-    open(out, "w").write(txt)
+    with _CFG_LOCK:                       # legs run in threads: write each cfg once, atomically
+        if _CFG_DONE.get(out) != txt:
+            tmp = out + ".tmp%d" % os.getpid()
+            open(tmp, "w").write(txt)
+            os.replace(tmp, out)
+            _CFG_DONE[out] = txt
     return out
 
 
